@@ -3,6 +3,8 @@
 package main
 
 import (
+	"time"
+
 	"verif/harness/cmd/c01/eng"
 	"verif/harness/h"
 )
@@ -11,5 +13,7 @@ func main() {
 	h.Main(h.Harness{
 		Gen:     func(r *h.Rand, tier string, emit func([]string)) { eng.Gen(r, tier, "c03", emit) },
 		NewCase: func() h.CaseRunner { return eng.New() },
+		// generous: the machine may be heavily loaded; a real hang still ends the case
+		OpTimeout: 120 * time.Second,
 	})
 }
